@@ -423,3 +423,41 @@ Qed.
 
 Lemma le_cf_form_spec a : le_cf_form a = true <-> (a <> hx_CrFUU /\ a <> hx_CondEvap).
 Proof. destruct a; simpl; split; intro H; try reflexivity; try discriminate H; try (split; discriminate); destruct H as [H1 H2]; congruence. Qed.
+
+(* ------------------------------------------------------------------ CondEvap against counter flow at the SAME c *)
+(* the condensing/evaporating formula ignores c, so for c > 0 it lies strictly ABOVE counter flow at that c: the clause
+   "never exceeds the counter-flow value" can only be meant against counter flow at c = 0 for this arrangement *)
+Lemma tangent_mix_strict c t : 0 < c < 1 -> t <> 0 -> 0 < (1 - c) - exp (- (c * t)) + c * exp (- t).
+Proof.
+  intros [Hc0 Hc1] Ht. assert (Hct : c * t <> 0) by (apply Rmult_integral_contrapositive_currified; lra).
+  pose proof (exp_ineq1 (c * t) Hct) as A. pose proof (exp_ineq1_le (- ((1 - c) * t))) as B. pose proof (exp_pos (- (c * t))) as P.
+  assert (E1 : exp (- (c * t)) * exp (c * t) = 1) by (rewrite <- exp_plus; replace (- (c * t) + c * t) with 0 by ring; apply exp_0).
+  assert (E2 : exp (- (c * t)) * exp (- ((1 - c) * t)) = exp (- t)) by (rewrite <- exp_plus; f_equal; ring).
+  assert (K1 : 0 < (1 - c) * (exp (c * t) - (1 + c * t))) by (apply Rmult_lt_0_compat; lra).
+  assert (K2 : 0 <= c * (exp (- ((1 - c) * t)) - (1 + - ((1 - c) * t)))) by (apply Rmult_le_pos; lra).
+  assert (K : 0 < exp (- (c * t)) * ((1 - c) * exp (c * t) + c * exp (- ((1 - c) * t)) - 1)) by (apply Rmult_lt_0_compat; lra).
+  replace (exp (- (c * t)) * ((1 - c) * exp (c * t) + c * exp (- ((1 - c) * t)) - 1))
+    with ((1 - c) * (exp (- (c * t)) * exp (c * t)) + c * (exp (- (c * t)) * exp (- ((1 - c) * t))) - exp (- (c * t))) in K by ring.
+  rewrite E1, E2 in K. lra.
+Qed.
+
+Theorem eff_CF_lt_CondEvap N c : 0 < N -> 0 < c <= 1 -> eff_CF N c < eff_CondEvap N c.
+Proof.
+  intros HN [Hc0 Hc1]. unfold eff_CondEvap. destruct (Req_dec c 1) as [E1|NE].
+  - rewrite (eff_CF_1_form N c E1). pose proof (exp_ineq1 N ltac:(lra)) as H. pose proof (exp_pos (- N)) as P.
+    assert (E : exp (- N) * exp N = 1) by (rewrite <- exp_plus; replace (- N + N) with 0 by ring; apply exp_0).
+    apply (Rmult_lt_reg_r (1 + N)); [lra|]. replace (N / (1 + N) * (1 + N)) with N by (field; lra).
+    assert (exp (- N) * (1 + N) < exp (- N) * exp N) by (apply Rmult_lt_compat_l; lra). lra.
+  - assert (Hc : c < 1) by lra. rewrite (eff_CF_lt1_form N c HN ltac:(lra) Hc).
+    pose proof (tangent_mix_strict c N ltac:(lra) ltac:(lra)) as T.
+    assert (Hp : 0 < N * (1 - c)) by (apply Rmult_lt_0_compat; lra).
+    pose proof (exp_neg_lt1 _ Hp) as HE1. pose proof (exp_pos (- (N * (1 - c)))) as HE0.
+    assert (Eb : exp (- N) = exp (- (c * N)) * exp (- (N * (1 - c)))) by (rewrite <- exp_plus; f_equal; ring).
+    set (a := exp (- (c * N))) in *. set (E := exp (- (N * (1 - c)))) in *. rewrite Eb in *.
+    assert (Hd : 0 < 1 - c * E) by nra.
+    apply (Rmult_lt_reg_r (1 - c * E)); [exact Hd|]. replace ((1 - E) / (1 - c * E) * (1 - c * E)) with (1 - E) by (field; lra).
+    assert (0 < E * (1 - c - a + c * (a * E))) by (apply Rmult_lt_0_compat; lra). nra.
+Qed.
+
+Theorem eff_le_cf_CondEvap_same_c_refuted : ~ (forall N c, 0 < N -> 0 <= c <= 1 -> eff_CondEvap N c <= eff_CF N c).
+Proof. intro H. specialize (H 1 1 ltac:(lra) ltac:(lra)). pose proof (eff_CF_lt_CondEvap 1 1 ltac:(lra) ltac:(lra)). lra. Qed.
